@@ -15,7 +15,7 @@ class A(Adapter):
     serves = {"C01", "C04", "C05", "C06", "C09", "C10", "C11", "C12"}
     terminate_on_invalid = True
     max_steps = 90
-    ops = ("state", "step", "judge", "instance")
+    ops = ("state", "step", "judge", "instance", "bounds")
     state_fields = ["board", "action_mask"]
 
     def configs(self, tier):
